@@ -326,11 +326,21 @@ Fixpoint run_rules (rs : list rule) (i : info) : vres :=
 (** [FontInfo::validate] *)
 Definition fi_validate (i : info) : vres := run_rules fi_rules i.
 
-(** ---------- [Font::save]: validate, then write; the file holds the info unchanged ---------- *)
-(** (the Guideline serialiser's own angle test can no longer fail after [validate]; the
-    correspondence run checks that no other error kind appears) *)
-Definition fi_save (i : info) : result info fi_err :=
-  match fi_validate i with Ok _ => Ok i | Err e => Err e | Panic s => Panic s end.
+(** ---------- [Font::save]: validate (before the target is touched), then write ---------- *)
+(** The Guideline serialiser applies the angle test once more while fontinfo.plist is written,
+    i.e. after the target directory has been wiped; this is the late failure of finding F9. *)
+Definition ser_angles_ok (i : info) : bool :=
+  match i_guides i with None => true | Some gs => forallb (fun g => line_ok (g_line g)) gs end.
+Inductive save_err :=
+| SInvalid (e : fi_err)       (* FontWriteError::InvalidFontInfo, target untouched *)
+| SSerialize.                 (* FontWriteError::CustomFile { fontinfo.plist }, target already wiped *)
+(** [Ok j]: the written fontinfo.plist holds [j] *)
+Definition fi_save (i : info) : result info save_err :=
+  match fi_validate i with
+  | Ok _ => if ser_angles_ok i then Ok i else Err SSerialize
+  | Err e => Err (SInvalid e)
+  | Panic s => Panic s
+  end.
 
 (** ---------- [Font::load] of a fontinfo.plist ---------- *)
 (** What a fontinfo.plist holds, as far as the typed deserialisers and the rules look at it. *)
